@@ -214,6 +214,23 @@ def stack (fuel : Nat) (ts : List PT) (dim : Nat) (next : Nat) : Option PT :=
             vaxes := lggs.take dim ++ [Axis.phys k.1 k.2] ++ lggs.drop dim,
             default := h.default })
 
+/-- the fuel side condition of `C06j.stack_dense`, decided per job: in the substitution of every operand's slice no
+identity is bound twice, the clones of the fresh axes contain no bound axis, the looked-up physical axes of the operand are
+unbound -/
+def stackResolved (fuel : Nat) (ts : List PT) (next : Nat) : Bool :=
+  match ts with
+  | h :: t1 :: rest =>
+    let A := (t1 :: rest).foldl (fun (acc : List Axis × ASt) (t : PT) =>
+      antiunifyAll fuel (acc.1.zip t.vaxes) ⟨[], acc.2.next⟩) (h.vaxes, ⟨[], next⟩)
+    (h :: t1 :: rest).all (fun t =>
+      match unifyAll fuel (A.1.zip t.vaxes) ⟨[], A.2.next + 1⟩ with
+      | (false, _) => true
+      | (true, st) =>
+        nodupNat (st.subst.map (·.1)) &&
+        (A.2.pairs.map (·.2)).all (fun g => (clone st.subst FUEL (Axis.phys g.1 g.2)).fv.all (fun q => (bound st.subst q.1).isNone)) &&
+        t.paxes.all (fun p => (lookup st.subst FUEL (Axis.phys p.1 p.2)).fv.all (fun q => (bound st.subst q.1).isNone)))
+  | _ => true
+
 /-! ### protocol -/
 
 def showOptPT : Option PT → String
@@ -244,7 +261,7 @@ def handle : List String → Option (Except String String)
       pure (showOptPT (expand t s next))
   | "C06.stack" :: rest => some do
       let (ts, d, next) ← Tok.run (do let t ← Tok.list parsePT; let d ← Tok.nat; let n ← Tok.nat; pure (t, d, n)) rest
-      pure (showOptPT (stack FUEL ts d next))
+      pure (showOptPT (stack FUEL ts d next) ++ " " ++ showBool (stackResolved FUEL ts next))
   | "C06.any" :: rest => some do
       let (t, d, k) ← Tok.run (do let t ← parsePT; let d ← Tok.nat; let k ← Tok.bool; pure (t, d, k)) rest
       pure (showOptPT (any t d k))
